@@ -163,6 +163,12 @@ def gen_case(rng, n_ops=None, invalid_rate=0.15, pf_level=True):
             elif r < 0.5:
                 amt = rng.choice([-3.0, 1e13]) if bad and rng.random() < 0.5 else rng.choice([0.0, 5.0])
                 ops.append(['pfwd', pid, int(t), amt])
+            elif r < 0.62 and pfs[pid]['held']:
+                # the portfolio clock moves on (a direct subscription), then a mark stamped before it but not before the
+                # position's own clock: must be refused (timestamp earlier than the portfolio's clock)
+                a = rng.choice(list(pfs[pid]['held']))
+                ops.append(['pfsub', pid, int(now) + 120, 1.0])
+                ops.append(['pfmark', pid, a, gen_price(rng), int(now) + rng.choice([0, 30, 119])])
             elif r < 0.8:
                 held = list(pfs[pid]['held']) or list(quotes)
                 a = rng.choice(held + ['ZZZ'])
